@@ -277,7 +277,7 @@ package gozxing
 // (GetEnclosingRectangle, GetTopLeftOnBit, GetBottomRightOnBit and Rotate180 scan whole words and rely on it).
 
 //@ spec func mget(m *BitMatrix, x int, y int) bool = wordbit(m.bits[y*m.rowSize + x/32], x%32)
-//@ pred wfBM(m *BitMatrix) = m.width >= 1 && m.height >= 1 && m.width <= 1<<20 && m.height <= 1<<20 && m.rowSize == (m.width+31)/32 && len(m.bits) == m.rowSize*m.height
+//@ pred wfBM(m *BitMatrix) = m.width >= 1 && m.height >= 1 && m.rowSize == (m.width+31)/32 && len(m.bits) == m.rowSize*m.height
 //@ pred padBM(m *BitMatrix) = forall x int, y int :: m.width <= x && x < m.rowSize*32 && 0 <= y && y < m.height ==> !mget(m, x, y)
 //@ pred inBM(m *BitMatrix, x int, y int) = 0 <= x && x < m.rowSize*32 && 0 <= y && y < m.height
 
@@ -295,6 +295,11 @@ package gozxing
 //@   requires 0 <= y1 && 0 <= y2 && 0 <= c1 && c1 < rs && 0 <= c2 && c2 < rs && y1*rs + c1 == y2*rs + c2
 //@   ensures y1 == y2 && c1 == c2
 //@ pred winj(m *BitMatrix, x1 int, y1 int, x2 int, y2 int) = hint(rowIdxInj(y1, x1/32, y2, x2/32, m.rowSize))
+//@ lemma mulNonneg(a int, b int)
+//@   property C16
+//@   opt nia=on
+//@   requires 0 <= a && 0 <= b
+//@   ensures 0 <= a*b
 //@ lemma mulBound(a int, b int, ma int, mb int)
 //@   property C16
 //@   opt nia=on
@@ -303,8 +308,7 @@ package gozxing
 
 //@ func NewBitMatrix(width int, height int) (r *BitMatrix, e error)
 //@   property C16
-//@   requires width <= 1<<20 && height <= 1<<20
-//@   use mulBound((width+31)/32, height, 32768, 1048576)
+//@   use mulNonneg((width+31)/32, height)
 //@   ensures (width < 1 || height < 1) ==> r == nil && e != nil
 //@   ensures !(width < 1 || height < 1) ==> e == nil && r != nil && fresh(r) && wfBM(r) && r.width == width && r.height == height
 //@   ensures !(width < 1 || height < 1) ==> forall x int, y int :: widx(r, x, y) && inBM(r, x, y) ==> !mget(r, x, y)
@@ -385,7 +389,7 @@ package gozxing
 //@ func (b *BitMatrix) Rotate90()
 //@   property C16
 //@   requires wfBM(b)
-//@   use mulBound((b.height+31)/32, b.width, 32768, 1048576)
+//@   use mulNonneg((b.height+31)/32, b.width)
 //@   ensures wfBM(b) && b.width == old(b.height) && b.height == old(b.width)
 //@   ensures forall x int, y int :: widx(b, x, y) && hint(rowIdx(x, old(b.height), old(b.rowSize), (old(b.width)-1-y)/32)) && 0 <= x && x < b.width && 0 <= y && y < b.height ==> mget(b, x, y) == old(mget(b, b.width - 1 - y, x))
 //@   ensures forall x int, y int :: widx(b, x, y) && b.width <= x && x < b.rowSize*32 && 0 <= y && y < b.height ==> !mget(b, x, y)
